@@ -43,9 +43,10 @@ Section RenameTensorSem.
   Local Open Scope K_scope.
 
   Theorem rename_tensor_value n a c n' (data : Z -> list nat -> K) x :
-    WF n -> a <> VT -> rename_tensor n a c = Some n' -> defining_sum n' data x = defining_sum n data x.
+    WF n -> rename_tensor n a c = Some n' -> defining_sum n' data x = defining_sum n data x.
   Proof.
-    intros W Ha H. pose proof (sstep_WF n (SRenT a c) n' W Ha H) as W'.
+    intros W H. pose proof (sstep_WF n (SRenT a c) n' W I H) as W'.
+    destruct (rename_tensor_pub n a c n' H) as [Ha Hp]. clear H. rename Hp into H.
     destruct W as [W0 HV]. destruct W' as [W0' HV'].
     destruct (rename_tensor_spec n a c n' W0 H) as [t [Ht [Hc En']]].
     assert (Hac : a <> c) by (intros ->; apply Hc; eapply dget_Some_key; eauto).
@@ -126,16 +127,23 @@ Section TransposeSem.
       rewrite !Er. f_equal. exact IH.
   Qed.
 
+  (** V'[x] = V[y] with y[axes[k]] = x[k], for the axes as the accepted call uses them
+      ([nat_axes]: negative entries counted from the last axis) *)
   Theorem transpose_value n axes n' (data : Z -> list nat -> K) x :
-    WF n -> is_perm_of axes n -> transpose n axes = Some n' -> length x = length axes ->
-    defining_sum n' data x = defining_sum n data (untranspose axes x).
+    WF n -> transpose n axes = Some n' -> length x = length axes ->
+    defining_sum n' data x = defining_sum n data (untranspose (nat_axes n axes) x).
   Proof.
-    intros W P H Lx. pose proof (sstep_WF n (STrans axes) n' W P H) as W'.
+    intros W H Lx. pose proof (sstep_WF n (STrans axes) n' W I H) as W'.
+    pose proof (transpose_is_perm n axes n' (proj1 W) H) as P.
     destruct W as [W0 HV]. destruct W' as [W0' HV'].
-    destruct (transpose_spec n axes n' H) as [t [Ht [NDax [Hax En']]]].
+    destruct (transpose_spec n axes n' H) as [t [Ht [Pt [Hax En']]]].
+    assert (NDax : NoDup (nat_axes n axes)) by (apply (Permutation_NoDup (Permutation_sym Pt)), seq_NoDup).
+    assert (Lx' : length x = length (nat_axes n axes)).
+    { rewrite Lx. unfold nat_axes. rewrite Ht. unfold norm_axes. rewrite !map_length. reflexivity. }
+    clear Lx Pt. rename Lx' into Lx. set (axs := nat_axes n axes) in *.
     unfold is_perm_of, vbids in P. rewrite Ht in P.
     pose proof (wf_T n W0 VT t (dget_In _ _ _ Ht)) as [_ Hlen].
-    assert (Lax : length axes = length (t_bids t)) by (rewrite (Permutation_length P), seq_length; reflexivity).
+    assert (Lax : length axs = length (t_bids t)) by (rewrite (Permutation_length P), seq_length; reflexivity).
     assert (Ekd : bond_kd n' = bond_kd n).
     { unfold bond_kd. rewrite En' at 1. cbn [bonds]. apply map_ext_in. intros [kb b] Hin. cbn [fst]. f_equal.
       destruct (bond_has_leg n kb W0 (in_map fst _ _ Hin)) as [k0 [t0 [ax [Hk0 Hleg]]]].
@@ -144,10 +152,10 @@ Section TransposeSem.
                       nth_error (t_shape t1) ax1 = nth_error (t_shape t0) ax).
       { rewrite En'. cbn [tensors]. destruct (Z.eq_dec k0 VT) as [->|Hne].
         - assert (t0 = t) by (apply In_dget in Hk0; [congruence | apply (wf_ndT n W0)]). subst t0.
-          assert (Hin' : In ax axes).
+          assert (Hin' : In ax axs).
           { eapply Permutation_in; [symmetry; exact P|]. apply in_seq. split; [lia|]. cbn. apply nth_error_Some. congruence. }
           apply In_nth_error in Hin'. destruct Hin' as [ax1 Hax1].
-          exists VT, (transposed t axes), ax1. split; [|split].
+          exists VT, (transposed t axs), ax1. split; [|split].
           + apply In_dset_in; [apply (wf_ndT n W0) | exact HV | left; auto].
           + cbn [transposed t_bids]. rewrite nth_error_map, Hax1. cbn. f_equal. apply nth_error_nth. exact Hleg.
           + cbn [transposed t_shape]. rewrite nth_error_map, Hax1. cbn. symmetry. apply nth_error_nth'.
@@ -155,7 +163,7 @@ Section TransposeSem.
         - exists k0, t0, ax. split; [|auto]. apply In_dset_in; [apply (wf_ndT n W0) | exact HV | right; auto]. }
       destruct Hk' as [k1 [t1 [ax1 [Hk1 [Eb Es]]]]].
       pose proof (bond_dim_spec n' k1 t1 ax1 kb W0' Hk1 Eb) as S2. congruence. }
-    assert (Evb : vbids n' = map (fun ax => nth ax (t_bids t) 0%Z) axes).
+    assert (Evb : vbids n' = map (fun ax => nth ax (t_bids t) 0%Z) axs).
     { unfold vbids. rewrite En'. cbn [tensors]. rewrite dget_dset, Z.eqb_refl. reflexivity. }
     assert (Evb0 : vbids n = t_bids t) by (unfold vbids; rewrite Ht; reflexivity).
     assert (Ert : real_tensors n' = real_tensors n) by (rewrite En'; apply real_tensors_dset; [apply (wf_ndT n W0) | exact HV]).
@@ -168,19 +176,19 @@ Section TransposeSem.
     rewrite deltas_lprod by (unfold untranspose; rewrite map_length, seq_length; exact Lax).
     fold m. rewrite Lax. fold m.
     (* reindex the second product along the permutation *)
-    set (g := fun j => delta (K:=K) (nth j (untranspose axes x) O) (s (nth j vb 0%Z))).
-    transitivity (lprod (map g axes)).
-    - assert (Eg : map g axes = map (fun k => g (nth k axes O)) (seq 0 (length axes))).
-      { rewrite <- (map_map (fun k => nth k axes O) g). rewrite map_nth_seq. reflexivity. }
+    set (g := fun j => delta (K:=K) (nth j (untranspose axs x) O) (s (nth j vb 0%Z))).
+    transitivity (lprod (map g axs)).
+    - assert (Eg : map g axs = map (fun k => g (nth k axs O)) (seq 0 (length axs))).
+      { rewrite <- (map_map (fun k => nth k axs O) g). rewrite map_nth_seq. reflexivity. }
       rewrite Eg, Lax. fold m. apply lprod_map_ext. intros k Hk. apply in_seq in Hk.
       unfold g. f_equal.
       + unfold untranspose. rewrite nth_map_seq by (rewrite Lax; apply Hax; apply nth_In; lia).
         f_equal. unfold idx_n.
-        assert (Hn : nth_error axes k = Some (nth k axes O)) by (apply nth_error_nth'; lia).
-        destruct (nindex_Some (nth k axes O) axes (nth_error_In _ _ Hn)) as [q Hq]. rewrite Hq.
+        assert (Hn : nth_error axs k = Some (nth k axs O)) by (apply nth_error_nth'; lia).
+        destruct (nindex_Some (nth k axs O) axs (nth_error_In _ _ Hn)) as [q Hq]. rewrite Hq.
         apply nindex_sound in Hq.
-        apply (proj1 (NoDup_nth_error axes) NDax k q); [lia | congruence].
-      + f_equal. apply nth_error_nth. rewrite nth_error_map. rewrite (nth_error_nth' axes O) by lia. reflexivity.
+        apply (proj1 (NoDup_nth_error axs) NDax k q); [lia | congruence].
+      + f_equal. apply nth_error_nth. rewrite nth_error_map. rewrite (nth_error_nth' axs O) by lia. reflexivity.
     - apply lprod_perm. apply Permutation_map. exact P.
   Qed.
 End TransposeSem.
